@@ -15,7 +15,7 @@ CLAIMS = {
                 text="Kernel level. For 17 read kernels of access/matrix.rs (scalar, index vector, logical mask, `:` in one and two positions) and EVERY matrix size: with valid indices the kernel returns normally and the output holds exactly the elements the 1-based column-major model selects, in reference order and documented shape (.value); if it returns normally every addressed position existed (.reject); mask length == indexed dimension (.masklen: violated by 7 kernels, known findings). The source is only borrowed immutably. Kani twins run the real structs on real nalgebra storage at fixed shapes (bounded) and cover the two iterator kernels outside the transcription; subscript() push order by a syntactic pass (bounded).",
                 note="Assumed: nalgebra containers behave as contracts/common/matmodel.rs (column-major, bounds-checked, resize gives the requested shape); elements modelled as u64 (kernels only clone them); `out` allocated as the dispatch arm allocates it (read off the arm); a kernel panic is an error (catch_unwind not verified). Not decided: dispatch arms, Value::as_index, swizzle/table/record access.", ref="4 C03"),
     "C04": dict(cat="proof", tech="Verus contracts with frame conditions on the assignment and op-assignment kernels transcribed onto the matrix model + Kani twins on the generated Assign*/Set*/«Op»Assign* structs + syntactic routing pass",
-                text="Kernel level. For 17 assignment kernels (assign/matrix.rs) and 16 op-assignment kernels (machines/math/src/op_assign, 4 per operator) and EVERY matrix size: with valid (and, for vector sources and op-assignment, distinct) indices exactly the addressed elements receive the value / op(old, source), every other element and the shape are unchanged (.value with frame); returns normally => every addressed position existed (.reject); mask length (.masklen, where the dispatch arm does not guard it); failure leaves the sink unchanged (.atomic: violated by every index-vector kernel, known finding). Kani twins at fixed shapes (bounded) cover the iterator kernels outside the transcription; subscript_ref() push order by a syntactic pass.",
+                text="Kernel level. For 21 assignment kernels (assign/matrix.rs) and 20 op-assignment kernels (machines/math/src/op_assign, 5 per operator) and EVERY matrix size: with valid (and, for vector sources and op-assignment, distinct) indices exactly the addressed elements receive the value / op(old, source), every other element and the shape are unchanged (.value with frame); returns normally => every addressed position existed (.reject); mask length (.masklen, where the dispatch arm does not guard it); failure leaves the sink unchanged (.atomic: violated by every index-vector kernel, known finding). Kani twins at fixed shapes (bounded) cover the iterator kernels outside the transcription; subscript_ref() push order by a syntactic pass.",
                 note="Assumed: matmodel.rs as for C03; element operation of op-assignment = one uninterpreted total function per operator (overflow / division by zero of the element type outside the model); typed dispatch arms reject mismatched masks for the 2-D mask forms (read off the arms, confirmed natively). Not decided: 2-D vector sources, read-back composition with C03, kind mismatch, dispatch arms.", ref="4 C04"),
     "C05": dict(cat="proof", tech="Verus on the real SymbolTable methods and on the name-guard fragments of variable_define / variable_assign; Kani on detach_variable_value",
                 text="SymbolTable::{get,get_mutable,contains,insert} proved against a map view with the invariant 'mutable binding => same cell as the binding'; the guards of variable_define (existing name => error) and variable_assign (undefined / immutable => the right error, before anything is written) proved on the verbatim statements; storage separation of `y := x` checked on the real detach_variable_value (known finding). The history clause is a lemma over these contracts.",
